@@ -269,3 +269,108 @@ Theorem C02_orderly_close_fin_ack : forall n r t ts w1 e1 nr1,
     (f_seq f2 = add n 1 /\ f_ack f2 = u32 (r + 1) /\ f_flags f2 = fAck /\ f_data f2 = []).
 Proof. exact orderly_close_fin_ack. Qed.
 Print Assumptions C02_orderly_close_fin_ack.
+
+(* ------------------------------------------------------------------------------------------------
+   TWO endpoints and the network (Proofs/TcpNetP.v closed system): fault enumeration over a FINITE
+   domain.  Property quantifier: "all fault schedules that drop any single packet or any pair of
+   packets of the exchange (data, pure ACK, window update, FIN), all shutdown/close orders".
+   Loss of HANDSHAKE packets is not covered: the runs start from the two states a completed
+   handshake leaves behind (Model/TcpEst.v; the handshake itself runs in real time inside
+   handshake.execute and is modelled separately in Model/TcpHs.v / C03).
+
+     C02_closed_system_incremental   the incremental two-endpoint system (Model/TcpSys.v: both states
+                                     and both output logs are carried along) is TcpNetP.sys_run: endpoint
+                                     X's state = run x0 evX, its frames so far = run_out x0 evX
+     C02_pump_is_schedule            whatever the fair pump with drops (Model/TcpSys.v pump: scripted
+                                     applications; every emitted frame delivered once, in emission order,
+                                     unless it is in the drop set; retransmission time-outs fired only when
+                                     nothing else can happen) does is a schedule of that closed system
+     C02_single_and_double_drops_outcome_bounded
+                                     BOUNDED-DOMAIN theorem (evaluation of the pump inside the kernel, 28 896
+                                     runs) - not the unbounded liveness claim.  Domain: 3 established
+                                     connections (initial sequence numbers next to 2^32 / 2^31 on either side,
+                                     and ordinary ones; MTU 80..120; buffers 1000..4096; timestamps; SACK off/on)
+                                     x 4 close orders (A first, B first, simultaneous, duplex; half-close then
+                                     data the other way when w2 > 0) x w1 in {0, 1, mss, 2*mss+3 in two
+                                     chunks} x w2 in {0, 5} x EVERY drop set of at most two frames among the
+                                     first 12 frames of either side.  For every element: the pump stops within
+                                     200 rounds; everything written is delivered, followed by end of stream,
+                                     in both directions; and either both endpoints end closed, no reset, at
+                                     most 12 frames each (so the drop sets ranged over every frame of the run)
+                                     - or the drop set contains the LAST frame emitted by an endpoint that
+                                     reached the closed state and its peer fails explicitly (error state,
+                                     exactly one reset).  The property text promises closed/closed only "when
+                                     no packet of the closing exchange is lost"; otherwise "the connection
+                                     fails with an explicit error"
+     C02_single_and_double_drops_recovered_bounded
+                                     the same domain, as a recovery statement: a run that did not lose the last
+                                     frame of an endpoint that closed ends closed/closed, everything delivered
+                                     with end of stream both ways, no reset
+     C02_single_drop_final_ack_refuted
+                                     "every single drop is recovered to closed/closed" is FALSE: there is no
+                                     TIME-WAIT state; once an endpoint's main loop has exited it ignores every
+                                     segment, so if its last ACK is lost the peer retransmits its FIN nine times
+                                     and then resets (witness: A first, 75 + 5 bytes, A's frame 6)
+     C02_window_update_drop_stalls_refuted
+                                     the KNOWN finding C02-zero-window-stall on two endpoints: a 64-byte receive
+                                     buffer, 80 bytes written, the window-reopening ACK dropped - both endpoints
+                                     stay connected for ever with 16 bytes queued and no timer running (the
+                                     loss-free run of the same scenario completes) *)
+From NP Require Import Model.TcpHs Model.TcpEst Proofs.TcpNetP Model.TcpSys Proofs.TcpSysLiveP.
+
+Theorem C02_closed_system_incremental : forall a0 b0 ms,
+  isys_run a0 b0 ms =
+  mkSys (run a0 (fst (sys_run a0 b0 ms))) (run_out a0 (fst (sys_run a0 b0 ms)))
+        (run b0 (snd (sys_run a0 b0 ms))) (run_out b0 (snd (sys_run a0 b0 ms))).
+Proof. exact isys_run_sys_run. Qed.
+Print Assumptions C02_closed_system_incremental.
+
+Theorem C02_pump_is_schedule : forall fuel orc a0 b0 sc ds,
+  let p := pump_run fuel orc a0 b0 sc ds in
+  p_sys p = sys_of a0 b0 (sys_run a0 b0 (rev (p_moves p))).
+Proof. exact pump_is_schedule. Qed.
+Print Assumptions C02_pump_is_schedule.
+
+Theorem C02_single_and_double_drops_outcome_bounded :
+  forall c sc ds, In c configs -> In sc (scens c) -> In ds (drop_sets K) ->
+  let p := pump_run budget orc (fst c) (snd c) sc ds in
+  p_done p = true /\
+  a_rd (p_appB p) = a_wr (p_appA p) /\ a_rd (p_appA p) = a_wr (p_appB p) /\
+  a_eof (p_appA p) = true /\ a_eof (p_appB p) = true /\
+  ((estate (sA (p_sys p)) = stClosed /\ estate (sB (p_sys p)) = stClosed /\
+    no_rst (oA (p_sys p)) = true /\ no_rst (oB (p_sys p)) = true /\
+    (length (oA (p_sys p)) <= K)%nat /\ (length (oB (p_sys p)) <= K)%nat /\ lost_final p ds = false)
+   \/
+   (lost_final p ds = true /\ explicit_failure p = true)).
+Proof. exact single_and_double_drops_outcome_bounded. Qed.
+Print Assumptions C02_single_and_double_drops_outcome_bounded.
+
+Theorem C02_single_and_double_drops_recovered_bounded :
+  forall c sc ds, In c configs -> In sc (scens c) -> In ds (drop_sets K) ->
+  let p := pump_run budget orc (fst c) (snd c) sc ds in
+  lost_final p ds = false -> recovered p = true.
+Proof. exact single_and_double_drops_recovered_bounded. Qed.
+Print Assumptions C02_single_and_double_drops_recovered_bounded.
+
+Theorem C02_single_drop_final_ack_refuted :
+  exists c sc ds, In c configs /\ In sc (scens c) /\ ds = [(true, 6%nat)] /\
+    let p := pump_run budget orc (fst c) (snd c) sc ds in
+    p_done p = true /\ delivered p = true /\
+    estate (sA (p_sys p)) = stClosed /\ estate (sB (p_sys p)) = stError /\
+    length (oA (p_sys p)) = 7%nat /\
+    length (filter (fun m => match m with MAppB ARto => true | _ => false end) (p_moves p)) = 10%nat /\
+    nrst p = 1%nat.
+Proof. exact single_drop_final_ack_refuted. Qed.
+Print Assumptions C02_single_drop_final_ack_refuted.
+
+Theorem C02_window_update_drop_stalls_refuted :
+  exists a0 b0, zw_cfg = Some (a0, b0) /\
+    recovered (pump_run budget orc a0 b0 (scenario 0 80 1 5) []) = true /\
+    let p := pump_run budget orc a0 b0 (scenario 0 80 1 5) [(false, 2%nat)] in
+    p_done p = true /\ delivered p = false /\
+    estate (sA (p_sys p)) = stConnected /\ estate (sB (p_sys p)) = stConnected /\
+    zw_stalled (sA (p_sys p)) = true /\
+    tstate (SN (sA (p_sys p))) <> tEnabled /\ tstate (SN (sB (p_sys p))) <> tEnabled /\
+    len (a_rd (p_appB p)) = 64 /\ len (a_wr (p_appA p)) = 80.
+Proof. exact window_update_drop_stalls_refuted. Qed.
+Print Assumptions C02_window_update_drop_stalls_refuted.
